@@ -141,6 +141,17 @@ impl<T: ?Sized + Trace> Weak<T> {
     }
 }
 
+#[cfg(rust_cc_verif)]
+impl<T: ?Sized + Trace> Weak<T> {
+    pub(crate) fn verif_addrs(&self) -> (Option<*const ()>, *const ()) {
+        (self.metadata.map(|m| m.as_ptr() as *const ()), self.cc.as_ptr() as *const ())
+    }
+
+    pub(crate) fn verif_word(&self) -> Option<u16> {
+        self.weak_counter_marker().map(|w| w.verif_word())
+    }
+}
+
 impl<T: ?Sized + Trace> Clone for Weak<T> {
     /// Makes a clone of the [`Weak`] pointer.
     /// 
